@@ -1,0 +1,30 @@
+//go:build verif
+
+package engine
+
+import "github.com/openGemini/openGemini/engine/immutable"
+
+// Facade addition for property C03: the metadata of every data file of a measurement as the
+// reader sees it (see immutable.VerifReadFileMeta). Compiled only with the `verif` build tag.
+func (v *VerifShard) FileMetas(mst string) ([]immutable.VerifC03FileMeta, error) {
+	var out []immutable.VerifC03FileMeta
+	for _, order := range []bool{true, false} {
+		fs, ok := v.sh.immTables.GetTSSPFiles(mst, order)
+		if !ok || fs == nil {
+			continue
+		}
+		files := fs.Files()
+		for _, f := range files {
+			m, err := immutable.VerifReadFileMeta(f)
+			if err != nil {
+				immutable.UnrefFilesReader(files...)
+				immutable.UnrefFiles(files...)
+				return out, err
+			}
+			out = append(out, m)
+		}
+		immutable.UnrefFilesReader(files...)
+		immutable.UnrefFiles(files...)
+	}
+	return out, nil
+}
